@@ -215,6 +215,12 @@ fn gen_totlv_for_struct_named(
 ) -> TokenStream {
     let mut tag_start = tlvargs.start;
     let datatype = format_ident!("start_{}", tlvargs.datatype);
+    // The `TLV` constructor for the same container type (`tlv_iter` must emit what `to_tlv` emits)
+    let datatype_tlv = if tlvargs.datatype == "struct" {
+        format_ident!("structure")
+    } else {
+        format_ident!("{}", tlvargs.datatype)
+    };
 
     let mut idents = Vec::new();
     let mut tags = Vec::new();
@@ -251,7 +257,7 @@ fn gen_totlv_for_struct_named(
             }
 
             fn tlv_iter(&self, tag: #krate::tlv::TLVTag) -> impl Iterator<Item = Result<#krate::tlv::TLV, #krate::error::Error>> {
-                let iter = #krate::tlv::TLV::structure(tag).into_tlv_iter();
+                let iter = #krate::tlv::TLV::#datatype_tlv(tag).into_tlv_iter();
 
                 #(let iter = Iterator::chain(iter, #krate::tlv::ToTLV::tlv_iter(&self.#idents, #krate::tlv::TLVTag::Context(#tags)));)*
 
